@@ -32,6 +32,19 @@ CLAIMED = {
  "C04": ("rapid structured mutations + count-field forgeries of reference encodings; native go fuzzing; TotalAlloc oracle",
          "Generated-input search over byte strings: forged count fields at known offsets and levels (from the reference encoder's bookkeeping) must be rejected with exactly ErrGeometryTooLarge{Level,N,Limit}; every decode is checked for no panic, termination (CPU budget), well-formedness, canonical re-encoding, agreement of hex/Scan wrappers and a measured allocation bound; thorough adds coverage-guided fuzzing on all cores.",
          "Allocation bound constants (4096 + 128/byte + 256/limit unit) have >= 10x margin over measurements; with a level's limit disabled only inputs whose count fields are backed by remaining input are executed, as the property prescribes.", "DESIGN.md §4 C04"),
+
+ "C05": ("rapid WKT-expressible trees: encoder -> library parser and independent reference reader; generated spellings",
+         "Generated-input search with a round-trip oracle and a differential oracle: the encoder's text must parse back to the model with the library's parser and with an independent recursive-descent reader (catches an encoder and parser agreeing on a wrong text), and a token-by-token generated spelling (case, whitespace, bare/parenthesised multipoint members, attached/detached suffix, number notations, untagged EMPTY inside a tagged collection) must parse to the same model.",
+         "Trusts internal/refwkt as the statement of the OGC/PostGIS grammar and strconv for float formatting; domain as in the property (finite ordinates, uniform layout, valid rings/lines).", "DESIGN.md §4 C05"),
+ "C06": ("bounded-exhaustive token sequences + viable-prefix enumeration + rapid mutants/defect injection + native fuzzing",
+         "Every token sequence up to length 4 (5 thorough) over the 37-token alphabet is parsed on every run, the viable-prefix frontier is followed to length 9 (12), and generated mutants, nested-collection frames, raw strings and single-defect injections are parsed; each outcome is checked for no panic, renderable error, well-formed single-dimensionality geometry with valid lines/rings, and stable re-encoding; defects the statement names must be rejected.",
+         "Reachability of the 14 internal assertions is decided by search, not proof; must-reject cases are only those that are unambiguous (an EMPTY is never the only witness of a dimension conflict).", "DESIGN.md §4 C06"),
+ "C07": ("rapid geometries/features round-tripped through GeoJSON, independent RFC 7946 reader, mutated documents, native fuzzing",
+         "Generated-input search: geometry round trips under a drawn DefaultLayout with the stated carve-outs applied to the expectation (and counted), an independent encoding/json-based reader must see the same type, nesting and numbers, Feature/FeatureCollection values keep id/bbox/properties/geometry, and mutated or fuzzed documents must decode to an error or a well-formed result without panicking.",
+         "An empty GeometryCollection's layout after decoding is not asserted (GeoJSON carries none); Feature round trips start from the Go struct (numeric ids are checked on the wire separately); nil *Feature entries are outside the claim.", "DESIGN.md §4 C07"),
+ "C18": ("rapid decimal-boundary ordinates x d in 0..15; literals checked in exact rational arithmetic",
+         "Generated-input search aimed at rounding boundaries of the requested digit count (k*10^-d and (k+1/2)*10^-d within 2 ulps, 0.99..9, powers of ten, values rounding to zero, -0, denormals, huge values): every emitted literal is tokenised by the harness and checked for shape and for |literal - ordinate| <= 10^-d/2 exactly; structure is compared through the reference WKT/JSON readers; GeoJSON bbox in either option order.",
+         "bbox only for geometries whose box is finite (JSON cannot carry +-Inf); an empty MultiPoint member may render as null or [].", "DESIGN.md §4 C18"),
 }
 PENDING_REASON = "check not built yet in this session (planned, see DESIGN.md §4); not claimed until its harness package exists"
 
